@@ -332,13 +332,14 @@ class Series(_Gap):
     def __len__(self):
         if all(z3.is_true(p) for p in self.present):
             return len(self.vals)  # no row was ever masked out: the length is concrete
-        raise ModelGap("len(Series) is symbolic")
+        # len() must be a python int: decide the number of present rows (one fork per possible length)
+        return eng().concretize_int(z3.Sum([z3.If(p, 1, 0) for p in self.present]), range(len(self.vals) + 1))
 
     @property
     def shape(self):
         if all(z3.is_true(p) for p in self.present):
             return (len(self.vals),)
-        raise ModelGap("Series.shape is symbolic")
+        return (len(self),)
 
     def rename(self, name):
         return self._new(name=name)
